@@ -2,7 +2,7 @@
 from lib import hexs
 
 MODULE = "DtailModel.Props.C04"
-GROUPS = ["C04"]
+GROUPS = ["C04", "GEN"]
 LOGGER = "none"
 JOBS = 16
 BUDGET = {"quick": 110, "thorough": 2500}
@@ -50,7 +50,7 @@ def script(rng, tiny):
     return ",".join(steps) if steps else "P"
 
 
-def gen(rng, budget, tier):
+def _gen_hand(rng, budget, tier):
     yield "c04.perc 100"
     for _ in range(budget):
         tiny = rng.random() < 0.3
@@ -74,3 +74,10 @@ def impl_view(case, impl):
     if case.startswith("c04.tail") and "#" in impl:
         return impl.rsplit("#", 1)[0]
     return impl
+
+
+def gen(rng, budget, tier):
+    # tie G: the translated stats.go / transmittable and the real functions on the same scripts
+    from props import gen_tie
+    yield from gen_tie.gen_stats(rng, 150 if tier == "quick" else 5000)
+    yield from _gen_hand(rng, budget, tier)
